@@ -43,6 +43,85 @@ fn kind_name(t: &TypeLayout) -> String {
     }
 }
 
+use crate::ast::{CompileTimeEvaluate, ConstexprEvaluation, Number, Value};
+use bytecode::BytecodePrimitive as P;
+
+fn literal(kind: &str, hex: &str) -> Number {
+    let v = u128::from_str_radix(hex, 16).expect("hex");
+    match kind {
+        "Int" => Number::Integer((v as u32 as i32).to_string()),
+        "BigInt" => Number::BigInt((v as i128).to_string()),
+        "Float" => Number::Float(f64::from_bits(v as u64).to_string()),
+        "Byte" => Number::Byte((v as u8).to_string()),
+        "IntLit" => Number::Integer((v as i128).to_string()),
+        _ => panic!("kind {kind}"),
+    }
+}
+
+/// what the run time loads from the instruction the compiler emits for this literal
+fn load(n: &Number) -> String {
+    let (kind, r) = match n {
+        Number::Integer(t) => ("Int", P::make_int(t)),
+        Number::BigInt(t) => ("BigInt", P::make_bigint(t)),
+        Number::Float(t) => ("Float", P::make_float(t)),
+        Number::Byte(t) => ("Byte", std::panic::catch_unwind(|| P::make_byte(t)).unwrap_or_else(|_| Err(anyhow::anyhow!("panic")))),
+    };
+    match r {
+        Ok(P::Int(x)) => format!("OK Int {:x}", x as u32),
+        Ok(P::BigInt(x)) => format!("OK BigInt {:x}", x as u128),
+        Ok(P::Float(x)) => if x.is_nan() { "OK Float nan".to_string() } else { format!("OK Float {:x}", x.to_bits()) },
+        Ok(P::Byte(x)) => format!("OK Byte {:x}", x),
+        Ok(_) => "OK Other 0".to_string(),
+        Err(_) => format!("OK UNLOADABLE {}:{}", kind, n),
+    }
+}
+
+fn fold(op: &str, args: &[Number]) -> String {
+    let r = match op {
+        "add" => &args[0] + &args[1],
+        "sub" => &args[0] - &args[1],
+        "mul" => &args[0] * &args[1],
+        "div" => &args[0] / &args[1],
+        "rem" => &args[0] % &args[1],
+        "shl" => &args[0] << &args[1],
+        "shr" => &args[0] >> &args[1],
+        "bitand" => &args[0] & &args[1],
+        "bitor" => &args[0] | &args[1],
+        "bitxor" => &args[0] ^ &args[1],
+        "negate" => args[0].negate().ok_or_else(|| anyhow::anyhow!("not foldable")),
+        "widen" => match args[0].try_constexpr_eval() {
+            Ok(ConstexprEvaluation::Owned(Value::Number(n))) => Ok(n),
+            Ok(_) => Err(anyhow::anyhow!("impossible")),
+            Err(e) => Err(e),
+        },
+        _ => panic!("op {op}"),
+    };
+    match r {
+        Ok(n) => load(&n),
+        Err(_) => "ERR".to_string(),
+    }
+}
+
+fn run_fold_vectors(out: &mut impl Write) {
+    let Ok(path) = std::env::var("VERIF_FOLD_VECTORS") else { return };
+    std::panic::set_hook(Box::new(|_| {}));
+    for line in std::fs::read_to_string(path).expect("vectors").lines() {
+        let t: Vec<&str> = line.split_whitespace().collect();
+        if t.len() < 4 {
+            continue;
+        }
+        let mut args = vec![];
+        let mut i = 2;
+        while i + 1 < t.len() {
+            args.push(literal(t[i], t[i + 1]));
+            i += 2;
+        }
+        let op = t[1].to_string();
+        let r = std::panic::catch_unwind(std::panic::AssertUnwindSafe(|| fold(&op, &args))).unwrap_or_else(|_| "PANIC".to_string());
+        writeln!(out, "fold {} {}", t[0], r).unwrap();
+    }
+}
+
 #[test]
 fn verif_native_run() {
     let out_path = match std::env::var("VERIF_RESULTS") {
@@ -50,6 +129,7 @@ fn verif_native_run() {
         Err(_) => return,
     };
     let mut out = std::io::BufWriter::new(std::fs::File::create(&out_path).expect("results"));
+    run_fold_vectors(&mut out);
     let flags = TypecheckFlags::<&ClassType>::classless();
     for (ln, l) in kinds() {
         for (rn, r) in kinds() {
